@@ -236,8 +236,10 @@ def build(S, tier):
             def implied(f):
                 if unknown:
                     return False
+                if any(z3.is_expr(h) and h.eq(f) for h in hy):
+                    return True               # the branch condition itself is on the path: no solver needed (and no dependence on load)
                 sv = z3.Solver()
-                sv.set("timeout", 10000)
+                sv.set("timeout", 30000)
                 sv.add(*hy)
                 sv.add(z3.Not(f))
                 r = sv.check()
